@@ -32,7 +32,7 @@ def _parse(src: str) -> ast.AST:
     from . import normal
     # the form a rule expects is brought to the same canonical spelling as the repository's code (sa/normal.py);
     # wrapped in a function so that the function-level steps (annotations, temporaries) apply
-    if m.body and all(isinstance(x, ast.stmt) for x in m.body) and not (len(m.body) == 1 and isinstance(m.body[0], ast.Expr)):
+    if m.body and all(isinstance(x, ast.stmt) for x in m.body):
         try:
             w = ast.parse("def _f_():\n    pass")
             w.body[0].body = m.body
